@@ -166,6 +166,8 @@ def execute(prog):
                     if it["nonce"] == "entropy":
                         kw["entropy"] = dev
                 # ---- reload generations of the signing key before signing
+                it = dict(it, reload=[g for g in it["reload"]
+                                      if libx.fmt_ok(toy, g[1])])
                 for kind, fmt in it["reload"]:
                     if kind == "sk":
                         try:
